@@ -69,6 +69,7 @@ PROPS = {
         tests=[
             dict(name="TestWaitShutdown", quick=4000, thorough=240000, shards_thorough=12),
             dict(name="TestCancelDuringDispatch", quick=1500, thorough=120000, shards_thorough=4),
+            dict(name="TestCancelWhileRunning", quick=6000, thorough=200000, shards_thorough=6),
             dict(name="TestWaitTrickle", quick=60, thorough=3000, shards_thorough=8, shrinktime="5s"),
             dict(name="TestWaitRace", quick=60, thorough=3600, shards_thorough=4, race=True, shrinktime="5s"),
         ],
@@ -238,6 +239,8 @@ PROPS = {
         assumptions=COMMON_ASSUME + ["a race report appended to the detector's log file while a case runs belongs to that case (cases run one at a time)"],
         tests=[
             dict(name="TestPrograms", quick=300, thorough=16000, shards_thorough=12, race=True, shrinktime="20s",
+                 gorace="log_path={sdir}/race suppress_equal_stacks=0 suppress_equal_addresses=0", timeout_quick=1200),
+            dict(name="TestMaterializerStorm", quick=150, thorough=8000, shards_thorough=8, race=True, shrinktime="20s",
                  gorace="log_path={sdir}/race suppress_equal_stacks=0 suppress_equal_addresses=0", timeout_quick=1200),
         ],
     ),
